@@ -18,7 +18,7 @@ for p in props:
             'engine': 'coq-model+correspondence',
             'level_claimed': {'category': 'proof', 'text': c['text'], 'design_ref': c.get('design_ref', 'DESIGN.md section 6, ' + pid)},
             'level_note': c['note'],
-            'technique': c.get('technique', 'Coq 8.16 theorems over a hand-written Gallina model; tie to the code checked on every run in two ways: the table-shaped fragments and the straight-line function bodies of src/ (impl Ord for Bound, BoundSet::new, the desugaring matches; Version eq/cmp/diff, BoundSet satisfies/allows_*/intersect/difference, Display for BoundSet) and the 13 winnow grammar functions of src/range.rs are regenerated as Gallina by tools/translate.py, translate_fn.py and translate_p.py and proved equal to the model functions for all arguments, and the whole model is compared with the crate built from /repo by a correspondence check (extracted OCaml model vs. the real crate on the same cases, kernel vm_compute certificates)'),
+            'technique': c.get('technique', 'Coq 8.16 theorems over a hand-written Gallina model; tie to the code checked on every run in two ways: the table-shaped fragments and the straight-line function bodies of src/ (impl Ord for Bound, BoundSet::new, the desugaring matches; Version eq/cmp/diff, BoundSet satisfies/allows_*/intersect/difference, Display for BoundSet) the 13 winnow grammar functions of src/range.rs and the 7 of src/lib.rs are regenerated as Gallina by tools/translate.py, translate_fn.py, translate_p.py and translate_v.py and proved equal to the model functions for all arguments, and the whole model is compared with the crate built from /repo by a correspondence check (extracted OCaml model vs. the real crate on the same cases, kernel vm_compute certificates)'),
         })
     else:
         na.append({'property_id': pid, 'reason': 'check not built yet (framework under construction; see DESIGN.md section 10)'})
